@@ -32,7 +32,7 @@ static const std::vector<std::string>& name_pool()
                                                 "v",   "n",  "in.put", "q_1", "A",   "no",  "x y" };
     return p;
 }
-static const std::string letter_pool = "abovxyzn1_.A:";
+static const std::string letter_pool = "abovxyzn1_.A:\xe4\xf6";
 
 static const std::vector<std::string>& value_pool()
 {
@@ -134,6 +134,28 @@ static void gen_decl(vf::Src& src, Case& c, const DeclOpts& o)
         e.group = src.coin(30) ? src.irange(1, 2) : 0;
         c.e.push_back(e);
     }
+    // a value-taking option may be called "no-<X>" where <X> is a declared toggle: the declared
+    // name wins over the reversal spelling of the toggle
+    if (src.coin(6))
+    {
+        int tog = -1, opt = -1;
+        for (std::size_t i = 0; i < c.e.size(); ++i)
+        {
+            if (c.e[i].kind == TOGGLE && tog < 0)
+                tog = static_cast<int>(i);
+            if (c.e[i].kind != TOGGLE && opt < 0)
+                opt = static_cast<int>(i);
+        }
+        if (tog >= 0 && opt >= 0)
+        {
+            std::string n = "no-" + c.e[static_cast<std::size_t>(tog)].name;
+            bool used = false;
+            for (auto& e : c.e)
+                used |= e.name == n;
+            if (!used)
+                c.e[static_cast<std::size_t>(opt)].name = n;
+        }
+    }
 }
 
 static void gen_limit(vf::Src& src, Case& c)
@@ -234,6 +256,18 @@ static void gen_related_tokens(vf::Src& src, const Case& c, std::vector<std::str
     };
     auto undeclared_letter = [&]() -> char {
         static const std::string all = "abovxyzn1_.A:QZ7";
+        // now and then the high-bit twin of a declared letter (letter + 0x80)
+        if (src.coin(10))
+            for (auto& e : c.e)
+                if (!e.short_.empty() && static_cast<unsigned char>(e.short_[0]) < 0x80)
+                {
+                    char twin = static_cast<char>(static_cast<unsigned char>(e.short_[0]) | 0x80);
+                    bool used = false;
+                    for (auto& f : c.e)
+                        used |= f.short_ == std::string(1, twin);
+                    if (!used)
+                        return twin;
+                }
         for (int tries = 0; tries < 8; ++tries)
         {
             char ch = all[src.index(all.size())];
@@ -702,6 +736,24 @@ static void gen_c04(vf::Src& src, Case& c)
             gen_related_tokens(src, c, st.argv, true);
     }
     c.via_argv = src.coin(70);
+    // a NUL byte can only occur in a token handed over as a user_input object
+    if (!c.via_argv && !c.e.empty() && src.coin(10))
+    {
+        const Entry& e = c.e[src.index(c.e.size())];
+        std::string t = "--" + e.name;
+        t.push_back('\0');
+        t += src.coin(50) ? "x" : "";
+        st.argv.insert(st.argv.begin() + static_cast<long>(src.index(st.argv.size() + 1)), t);
+        if (e.kind != TOGGLE && src.coin(50))
+            st.argv.push_back("3");
+    }
+    // the empty argument vector without a program name: argc == 0, argv[0] == NULL
+    if (src.coin(3))
+    {
+        st.argv.clear();
+        c.via_argv = true;
+        c.argc0 = true;
+    }
     c.steps.push_back(st);
 }
 
@@ -909,7 +961,7 @@ static void gen_c14(vf::Src& src, Case& c)
             }
             else
             {
-                int m = e.kind == MULTI ? src.irange(1, 3) : 1;
+                int m = e.kind == MULTI ? (src.coin(93) ? src.irange(1, 3) : src.irange(33, 70)) : 1;
                 for (int j = 0; j < m; ++j)
                     st.argv.push_back("--" + e.name + "=" + gen_value(src));
             }
@@ -994,6 +1046,10 @@ Case generate(vf::Src& src, const std::string& mode)
         gen_c14(src, c);
     else
         throw std::runtime_error("unknown mode " + mode);
+    // The outcome belongs to the declaration, not to the object it was made on: now and then the
+    // parser is moved (by construction, or by assignment onto a parser that was already used)
+    if (mode != "c03ex" && mode != "c11ex" && src.coin(15))
+        c.moved = src.irange(1, 2);
     // The statements hold for every parse() on a parser object, not only the first one: in a
     // third of the cases an unrelated command line is parsed on the same object beforehand
     // (its outcome is ignored), then the case proper.
@@ -1165,6 +1221,12 @@ std::string check(const Case& c0, vf::Ctx& ctx)
             // then the rest of the declaration is made on the same object
             parser = om::build_parser(c, early);
             ctx.tag("late-declaration");
+            // half of the time the rest is declared through group references that the caller
+            // obtained before the first parse and held on to
+            om::HeldGroups held;
+            bool use_held = c.late % 2 == 1;
+            if (use_held)
+                held.fetch(parser.get());
             try
             {
                 std::vector<const char*> av = { "prog" };
@@ -1173,7 +1235,7 @@ std::string check(const Case& c0, vf::Ctx& ctx)
             catch (const std::exception&)
             {
             }
-            om::declare_entries(parser.get(), c, early, c.e.size());
+            om::declare_entries(parser.get(), c, early, c.e.size(), use_held ? &held : nullptr);
         }
     }
     catch (const std::exception& e)
@@ -1186,6 +1248,10 @@ std::string check(const Case& c0, vf::Ctx& ctx)
     {
         bool earlier_failed = false, earlier_set = false, nontrivial = false;
         std::set<std::string> earlier_argvs;
+        om::PrevResult prev14; // the previous result stays alive; its strings may be passed as argv
+        om::HeldGroups held14;
+        if (c.late > 0 && c.late % 2)
+            held14.fetch(parser.get());
         for (std::size_t k = 0; k < c.steps.size(); ++k)
         {
             const Step& st = c.steps[k];
@@ -1198,11 +1264,11 @@ std::string check(const Case& c0, vf::Ctx& ctx)
                 ctx.tag("late-declaration");
             }
             const Case& cc = (k == 0 && c.late > 0) ? partial : c;
-            om::Outcome shared = om::real_parse(*parser, cc, st);
+            om::Outcome shared = om::real_parse(*parser, cc, st, nullptr, &prev14);
             auto fresh_parser = om::build_parser(cc);
             om::Outcome fresh = om::real_parse(*fresh_parser, cc, st);
             if (k == 0 && c.late > 0)
-                om::declare_entries(parser.get(), c, early, c.e.size());
+                om::declare_entries(parser.get(), c, early, c.e.size(), c.late % 2 ? &held14 : nullptr);
             if (k >= 1 && (earlier_failed || earlier_set))
                 nontrivial = true;
             if (shared.cls >= 2)
@@ -1226,11 +1292,53 @@ std::string check(const Case& c0, vf::Ctx& ctx)
         return "";
     }
 
+    if (c.moved == 1)
+    {
+        ctx.tag("parser:move-constructed");
+        parser = std::make_unique<nitro::options::parser>(std::move(*parser));
+    }
+    else if (c.moved == 2)
+    {
+        // move assignment onto a parser that has a life of its own: other settings, toggles for
+        // every letter (so it accepts any bundle), and it already parsed this very command line
+        ctx.tag("parser:move-assigned");
+        auto other = std::make_unique<nitro::options::parser>("other", "other about");
+        {
+            int k = 0;
+            for (char ch : std::string("abovxyzn1_.A:QZ7"))
+            {
+                bool used = false;
+                for (auto& e : c.e)
+                    used |= e.short_ == std::string(1, ch);
+                if (!used)
+                    other->toggle("zz-other-" + std::to_string(k++), "d").short_name(std::string(1, ch));
+            }
+            for (auto& e : c.e)
+                if (e.kind == TOGGLE && !e.short_.empty())
+                    other->toggle("zz-twin-" + std::to_string(k++), "d").short_name(e.short_);
+            if (!c.greedy)
+                other->greedy_postionals();
+            other->accept_positionals(c.limit == 1 ? 2 : 1);
+            try
+            {
+                std::vector<const char*> av = { "prog" };
+                for (auto& t : c.steps.back().argv)
+                    av.push_back(t.c_str());
+                (void)other->parse(static_cast<int>(av.size()), av.data());
+            }
+            catch (const std::exception&)
+            {
+            }
+        }
+        *other = std::move(*parser);
+        parser = std::move(other);
+    }
     // earlier steps are warm-up parses on the same object; their outcome is ignored
+    om::PrevResult earlier;
     for (std::size_t k = 0; k + 1 < c.steps.size(); ++k)
     {
         ctx.tag("warmup-parse");
-        (void)om::real_parse(*parser, c, c.steps[k]);
+        (void)om::real_parse(*parser, c, c.steps[k], nullptr, &earlier);
     }
     const Step& st = c.steps.back();
     om::clear_env();
@@ -1252,7 +1360,13 @@ std::string check(const Case& c0, vf::Ctx& ctx)
     std::vector<om::Probe> probes;
     for (int i : c.probe)
         probes.push_back(om::Probe{ i, false, "", false, "" });
-    om::Outcome real = om::real_parse(*parser, c, st, &probes);
+    om::Outcome real = om::real_parse(*parser, c, st, &probes, &earlier);
+    // a result keeps reporting the positionals of ITS command line, whatever is parsed later
+    for (std::size_t k = 0; k + 1 < earlier.all.size(); ++k)
+        if (earlier.all[k].positionals() != earlier.all_pos[k])
+            return "the positionals of an earlier result changed when the same parser parsed another "
+                   "command line: were " + om::list_str(earlier.all_pos[k]) + ", now " +
+                   om::list_str(earlier.all[k].positionals());
 
     // ---- classification
     if (model.has_bundle)
